@@ -51,6 +51,24 @@ func (c countingStore) Add(a ast.Atom) bool {
 	return ok
 }
 
+// countingRemovableStore is countingStore over a store that can also remove
+// facts; the engine replaces facts of lattice predicates only when the store
+// it is given offers Remove, so the wrapper must not hide it.
+type countingRemovableStore struct {
+	countingStore
+	rm factstore.FactStoreWithRemove
+}
+
+func (c countingRemovableStore) Remove(a ast.Atom) bool { return c.rm.Remove(a) }
+
+func newCountingStore(inner factstore.FactStore, created *int, budget int) factstore.FactStore {
+	cs := countingStore{FactStore: inner, created: created, budget: budget}
+	if rm, ok := inner.(factstore.FactStoreWithRemove); ok {
+		return countingRemovableStore{cs, rm}
+	}
+	return cs
+}
+
 // divergingTemplates: programs whose least model is infinite.
 func addDivergingTemplate(r *simrt.Run, p *Program) string {
 	k := r.Choose(4, "c17.template")
@@ -92,6 +110,9 @@ func addDivergingTemplate(r *simrt.Run, p *Program) string {
 }
 
 func runC17(r *simrt.Run, tier Tier) Outcome {
+	if r.Choose(4, "c17.lattice") == 3 {
+		return runC17Lattice(r, tier)
+	}
 	o := DrawOpts(r)
 	prog := GenProgram(r, o)
 	diverges := r.Bool("c17.diverge")
@@ -172,7 +193,7 @@ func runC17(r *simrt.Run, tier Tier) Outcome {
 				return
 			}
 			inner := NewStore(cfg.Store)
-			store := countingStore{FactStore: inner, created: &created, budget: budget}
+			store := newCountingStore(inner, &created, budget)
 			opts := []engine.EvalOption{engine.WithCreatedFactLimit(L)}
 			if withTemporal {
 				opts = append(opts, engine.WithTemporalStore(factstore.NewTemporalStore()))
